@@ -66,7 +66,9 @@ def run(tier, repo):
 
     n_sites = 0
     n_ub = 0
-    bodies = [f for f in F.raw["fns"] if f.get("mir")]
+    # scope: parsing entry points, the defragmenter and formatting - i.e. every body of the crate except the serializer
+    # module, whose arithmetic (`len() as u16 * 2`) is covered by the wire-limit preconditions of C09
+    bodies = [f for f in F.raw["fns"] if f.get("mir") and not f["path"].startswith("tls_serialize::") and "as rusticata_macros::traits::Serialize" not in f["path"]]
     for f in bodies:
         owner = f["path"]
         m = f["mir"]
